@@ -207,7 +207,25 @@ func stallScript(r *rand.Rand, id string, i int) *Script {
 		}
 		switch r.Intn(3) {
 		case 0:
-			h = append(h, Op{Name: "Return"})
+			// the peer finishes while the sender is blocked -- with or without
+			// final frames (trailers, an error) that have to fit into the
+			// response channel
+			ret := Op{Name: "Return"}
+			switch r.Intn(3) {
+			case 0:
+				h = append(h, Op{Name: "SetTrailer"})
+				s.Sched = append(s.Sched, "h")
+				s.NTrl = 1
+			case 1:
+				ret.Arg = 1
+				s.StCls = []string{"plain"}
+				if r.Intn(2) == 0 {
+					h = append(h, Op{Name: "SetTrailer"})
+					s.Sched = append(s.Sched, "h")
+					s.NTrl = 1
+				}
+			}
+			h = append(h, ret)
 			s.Sched = append(s.Sched, "h")
 		case 1:
 			s.Sched = append(s.Sched, "cancel")
